@@ -253,3 +253,56 @@ Proof.
   rewrite map_id in Ha. exists a. split; [exact Ha|].
   intros k _. exact (generate_faithful r s teq m Hsk Hfr Hgen k (tpi_id p) a Hra).
 Qed.
+
+(** ** C18: standalone structs *)
+Theorem standalone_faithful r s teq m :
+  skeleton_consistent r s -> root_fresh s -> generate r s teq = Ok m ->
+  forall fs k u name docs n,
+    create_composite_ir_kind r s fs [] [] = Ok (k, u) ->
+    item_shape m s n (upcast_composite s (mk_ci name k docs)) [] =
+    SStruct (map (field_shape_reg r s n) fs).
+Proof.
+  intros Hsk Hfr Hgen fs k u name docs n Hk.
+  unfold item_shape, item_shape_with, upcast_composite. cbn [ti_params ti_kind kind_shape ci_kind].
+  f_equal.
+  apply (ckind_shapes r s _ (shape_reg r s n) [] fs [] k u Hk).
+  intros f fp _ Hfp. unfold mk_sigma. cbn [map combine].
+  eapply resolve_shape; [eapply generate_items_ok; eauto|assumption|exact Hfp|apply sigma_ok_nil].
+Qed.
+
+(** the analogue of [struct_item_fields_standalone] for the variants of an enum *)
+Lemma variants_go_standalone r s : forall vs l u,
+  variants_go r s [] vs [] = Ok (l, u) ->
+  u = [] /\
+  Forall2 (fun v x => fst x = v_index v /\ ci_name (snd x) = v_name v /\
+                      create_composite_ir_kind r s (v_fields v) [] [] = Ok (ci_kind (snd x), []))
+          vs l.
+Proof.
+  induction vs as [|v vs IH]; intros l u H.
+  - cbn in H. inversion H; subst. split; [reflexivity|constructor].
+  - cbn [variants_go] in H. fold (variants_go r s []) in H.
+    apply bind_ok in H as (vn & Hvn & H). apply bind_ok in H as ([k u1] & Hk & H).
+    apply bind_ok in H as ([rest u2] & Hrest & H). cbn [fst snd] in H, Hrest.
+    pose proof (composite_kind_no_params r s _ _ _ Hk) as Hu1. subst u1.
+    destruct (IH _ _ Hrest) as (Hu2 & HF). inversion H; subst. split; [reflexivity|].
+    constructor; [|assumption]. cbn [fst snd ci_name ci_kind].
+    apply parse_ident_ok in Hvn. auto.
+Qed.
+
+Theorem enum_item_variants_standalone r s t flat ir vs :
+  params_from_scale_info (t_params t) = [] -> t_def t = TDVariant vs ->
+  create_type_ir r s t flat = Ok (Some ir) ->
+  exists name docs l,
+    ti_kind ir = KEnum name docs l /\ ti_params ir = [] /\
+    Forall2 (fun v x => fst x = v_index v /\ ci_name (snd x) = v_name v /\
+                        create_composite_ir_kind r s (v_fields v) [] [] = Ok (ci_kind (snd x), []))
+            vs l.
+Proof.
+  intros Hp Hd H. destruct (create_type_ir_inv r s t flat ir H) as (HP & Hkind).
+  rewrite Hp in *.
+  destruct Hkind as [(fs' & name & docs & k & u & Hd' & _)|(vs' & name & docs & l & u & Hd' & Hk & Hc)];
+    [congruence|].
+  assert (vs' = vs) by congruence. subst vs'.
+  exists name, docs, l. split; [assumption|]. split; [assumption|].
+  apply (variants_go_standalone r s vs l u Hc).
+Qed.
